@@ -947,3 +947,194 @@ package process
 //@    ite(isProv(p.to_c.Ident, p.to_c.IsSelf, sh), !p.continuation_c.IsSelf, !p.to_c.IsSelf)
 //@ contract (*SelectForm).typecheckForm
 //@   ensures[C07] C07.selectComplete: old(premSelect(p, gammaNameTypesCtx, providerShadowName, providerType, labelledTypesEnv)) ==> result == nil
+
+// C04: every interpreter step is the step its rule prescribes (polarised interpreter, transition.go).
+// The oracle is the rule table of the semi-axiomatic sequent calculus (DESIGN.md Appendix B): which message a form
+// emits on which channel, and - for a receiving form - which message kind it accepts, which continuation becomes the
+// body, which received channel replaces which bound name, and who provides afterwards. The closures that finish a step
+// are reached through function values; each is verified under its own contract ($N = N-th closure of the method).
+//@ contract (*RuntimeEnvironment).error
+//@   noreturn
+//@ contract (*RuntimeEnvironment).errorf
+//@   noreturn
+
+// SND (provider): self!{SND, u, v}, then the process ends.  RCV (client): w!{RCV, u, self}; the receiver takes over self.
+//@ contract (*SendForm).Transition
+//@   requires[C04] len(process.Providers) >= 1
+//@   callsite[C04] C04.sndMsg process.TransitionBySending#1: f.to_c.IsSelf && arg3.Rule == SND && arg3.Channel1 == f.payload_c && arg3.Channel2 == f.continuation_c && arg1 == process.Providers[0].Channel
+//@   callsite[C04] C04.rcvMsg process.TransitionBySending#2: !f.to_c.IsSelf && f.continuation_c.IsSelf && arg3.Rule == RCV && arg3.Channel1 == f.payload_c && arg3.Channel2 == process.Providers[0] && arg1 == f.to_c.Channel
+//@ contract (*SendForm).Transition$1
+//@   callsite[C04] C04.sndEnds (*process.Process).terminate#1: arg0 == process
+//@ contract (*SendForm).Transition$2
+//@   callsite[C04] C04.rcvHandsOver (*process.Process).renamed#1: arg0 == process && arg1 == process.Providers && len(arg2) == 1 && arg2[0] == f.to_c
+
+// <x,y> <- recv self; P (RCV, provider): self?; body := P[u/x][self/y]; providers := [v].
+// <x,y> <- recv w; P (SND, client): w?; body := P[u/x][v/y].
+//@ contract (*ReceiveForm).Transition
+//@   requires[C04] len(process.Providers) >= 1
+//@   callsite[C04] C04.rcvOnSelf process.TransitionByReceiving#1: f.from_c.IsSelf && arg0 == process && arg1 == process.Providers[0].Channel
+//@   callsite[C04] C04.sndFromClient process.TransitionByReceiving#2: !f.from_c.IsSelf && arg0 == process && arg1 == f.from_c.Channel
+//@ contract (*ReceiveForm).Transition$1
+//@   callsite[C04] C04.rcvPayload process.Form.Substitute#1: message.Rule == RCV && arg0 == f.continuation_e && arg1 == f.payload_c && arg2 == message.Channel1
+//@   callsite[C04] C04.rcvSelf process.Form.Substitute#2: arg0 == f.continuation_e && arg1 == f.continuation_c && arg2.IsSelf && arg2.Channel == nil
+//@   callsite[C04] C04.rcvStep (*process.Process).transitionLoop#1: arg0 == process && process.Body == f.continuation_e && len(process.Providers) == 1 && process.Providers[0] == message.Channel2
+//@ contract (*ReceiveForm).Transition$2
+//@   callsite[C04] C04.sndPayload process.Form.Substitute#1: message.Rule == SND && arg0 == f.continuation_e && arg1 == f.payload_c && arg2 == message.Channel1
+//@   callsite[C04] C04.sndCont process.Form.Substitute#2: arg0 == f.continuation_e && arg1 == f.continuation_c && arg2 == message.Channel2
+//@   callsite[C04] C04.sndStep (*process.Process).transitionLoop#1: arg0 == process && process.Body == f.continuation_e && process.Providers == old(process.Providers)
+
+// self.l<v> (SEL, provider): self!{SEL, v, l}, then the process ends.  w.l<self> (BRA, client): w!{BRA, self, l}.
+//@ contract (*SelectForm).Transition
+//@   requires[C04] len(process.Providers) >= 1
+//@   callsite[C04] C04.selMsg process.TransitionBySending#1: f.to_c.IsSelf && arg0 == process && arg3.Rule == SEL && arg3.Channel1 == f.continuation_c && arg3.Label == f.label && arg1 == process.Providers[0].Channel
+//@   callsite[C04] C04.braMsg process.TransitionBySending#2: !f.to_c.IsSelf && f.continuation_c.IsSelf && arg0 == process && arg3.Rule == BRA && arg3.Channel1 == process.Providers[0] && arg3.Label == f.label && arg1 == f.to_c.Channel
+//@ contract (*SelectForm).Transition$1
+//@   callsite[C04] C04.selEnds (*process.Process).terminate#1: arg0 == process
+//@ contract (*SelectForm).Transition$2
+//@   callsite[C04] C04.braHandsOver (*process.Process).renamed#1: arg0 == process && arg1 == process.Providers && len(arg2) == 1 && arg2[0] == f.to_c
+
+// case self (...) (BRA, provider): self?; body := the first branch whose label is the received one, [self/p]; providers := [u].
+// case w (...) (SEL, client): w?; body := that branch, [u/p].
+//@ macro firstBranch(f *CaseForm, l Label, k int) bool = 0 <= k && k < len(f.branches) && f.branches[k].label.L == l.L && (forall j int :: 0 <= j && j < k ==> f.branches[j].label.L != l.L)
+//@ contract (*CaseForm).Transition
+//@   requires[C04] len(process.Providers) >= 1
+//@   callsite[C04] C04.braOnSelf process.TransitionByReceiving#1: f.from_c.IsSelf && arg0 == process && arg1 == process.Providers[0].Channel
+//@   callsite[C04] C04.selFromClient process.TransitionByReceiving#2: !f.from_c.IsSelf && arg0 == process && arg1 == f.from_c.Channel
+//@ contract (*CaseForm).Transition$1
+//@   loop[C04] 1 invariant !found && (forall j int :: 0 <= j && j <= idx ==> f.branches[j].label.L != message.Label.L)
+//@   callsite[C04] C04.braBranch process.Form.Substitute#1: message.Rule == BRA && firstBranch(f, message.Label, idx1 + 1) && arg0 == f.branches[idx1 + 1].continuation_e && arg1 == f.branches[idx1 + 1].payload_c && arg2.IsSelf && arg2.Channel == nil
+//@   callsite[C04] C04.braStep (*process.Process).transitionLoop#1: arg0 == process && firstBranch(f, message.Label, idx1 + 1) && process.Body == f.branches[idx1 + 1].continuation_e && len(process.Providers) == 1 && process.Providers[0] == message.Channel1
+//@ contract (*CaseForm).Transition$2
+//@   loop[C04] 1 invariant !found && (forall j int :: 0 <= j && j <= idx ==> f.branches[j].label.L != message.Label.L)
+//@   callsite[C04] C04.selBranch process.Form.Substitute#1: message.Rule == SEL && firstBranch(f, message.Label, idx1 + 1) && arg0 == f.branches[idx1 + 1].continuation_e && arg1 == f.branches[idx1 + 1].payload_c && arg2 == message.Channel1
+//@   callsite[C04] C04.selStep (*process.Process).transitionLoop#1: arg0 == process && firstBranch(f, message.Label, idx1 + 1) && process.Body == f.branches[idx1 + 1].continuation_e && process.Providers == old(process.Providers)
+
+// close self (CLS): self!{CLS}, then the process ends.  wait w; P: w?; only a CLS lets P run.
+//@ contract (*CloseForm).Transition
+//@   requires[C04] len(process.Providers) >= 1
+//@   callsite[C04] C04.clsMsg process.TransitionBySending#1: f.from_c.IsSelf && arg0 == process && arg3.Rule == CLS && arg1 == process.Providers[0].Channel
+//@ contract (*CloseForm).Transition$1
+//@   callsite[C04] C04.clsEnds (*process.Process).terminate#1: arg0 == process
+//@ contract (*WaitForm).Transition
+//@   callsite[C04] C04.waitWaits process.TransitionByReceiving#1: !f.to_c.IsSelf && arg0 == process && arg1 == f.to_c.Channel
+//@ contract (*WaitForm).Transition$1
+//@   callsite[C04] C04.waitStep (*process.Process).transitionLoop#1: message.Rule == CLS && arg0 == process && process.Body == f.continuation_e && process.Providers == old(process.Providers)
+
+// cast self<v> (CST, provider): self!{CST, v}.  cast w<self> (SHF, client): w!{SHF, self}.
+//@ contract (*CastForm).Transition
+//@   requires[C04] len(process.Providers) >= 1
+//@   callsite[C04] C04.cstMsg process.TransitionBySending#1: f.to_c.IsSelf && arg0 == process && arg3.Rule == CST && arg3.Channel1 == f.continuation_c && arg1 == process.Providers[0].Channel
+//@   callsite[C04] C04.shfMsg process.TransitionBySending#2: !f.to_c.IsSelf && f.continuation_c.IsSelf && arg0 == process && arg3.Rule == SHF && arg3.Channel1 == process.Providers[0] && arg1 == f.to_c.Channel
+//@ contract (*CastForm).Transition$1
+//@   callsite[C04] C04.cstEnds (*process.Process).terminate#1: arg0 == process
+//@ contract (*CastForm).Transition$2
+//@   callsite[C04] C04.shfHandsOver (*process.Process).renamed#1: arg0 == process && arg1 == process.Providers && len(arg2) == 1 && arg2[0] == f.to_c
+
+// y <- shift self; P (SHF, provider): self?; body := P[self/y]; providers := [u].  y <- shift w; P (CST, client): w?; body := P[u/y].
+//@ contract (*ShiftForm).Transition
+//@   requires[C04] len(process.Providers) >= 1
+//@   callsite[C04] C04.shfOnSelf process.TransitionByReceiving#1: f.from_c.IsSelf && arg0 == process && arg1 == process.Providers[0].Channel
+//@   callsite[C04] C04.cstFromClient process.TransitionByReceiving#2: !f.from_c.IsSelf && arg0 == process && arg1 == f.from_c.Channel
+//@ contract (*ShiftForm).Transition$1
+//@   callsite[C04] C04.shfSelf process.Form.Substitute#1: message.Rule == SHF && arg0 == f.continuation_e && arg1 == f.continuation_c && arg2.IsSelf && arg2.Channel == nil
+//@   callsite[C04] C04.shfStep (*process.Process).transitionLoop#1: arg0 == process && process.Body == f.continuation_e && len(process.Providers) == 1 && process.Providers[0] == message.Channel1
+//@ contract (*ShiftForm).Transition$2
+//@   callsite[C04] C04.cstPayload process.Form.Substitute#1: message.Rule == CST && arg0 == f.continuation_e && arg1 == f.continuation_c && arg2 == message.Channel1
+//@   callsite[C04] C04.cstStep (*process.Process).transitionLoop#1: arg0 == process && process.Body == f.continuation_e && process.Providers == old(process.Providers)
+
+// print l; P: writes "> l", then body := P.   drop x; P: a droppable forward takes x; body := P.
+//@ contract (*PrintForm).Transition
+//@   callsite[C04] C04.printInternal process.TransitionInternally#1: arg0 == process
+//@ contract (*PrintForm).Transition$1
+//@   callsite[C04] C04.printLine fmt.Printf#1: arg0 == "> %s\n"
+//@   callsite[C04] C04.printStep (*process.Process).transitionLoop#1: arg0 == process && process.Body == f.continuation_e && process.Providers == old(process.Providers)
+//@ contract (*DropForm).Transition
+//@   callsite[C04] C04.dropInternal process.TransitionInternally#1: !f.client_c.IsSelf && arg0 == process
+//@ contract (*DropForm).Transition$1
+//@   callsite[C04] C04.dropClient process.createDroppableForwardFromClient#1: arg0 == process && arg2 == f.client_c
+//@   callsite[C04] C04.dropSpawn (*process.Process).SpawnThenTransition#1: arg0 == newProcess
+//@   callsite[C04] C04.dropStep (*process.Process).transitionLoop#1: arg0 == process && process.Body == f.continuation_e && process.Providers == old(process.Providers)
+
+// y <- new b; Q (CUT): a fresh channel d; a new process (b, provider d) is spawned; body := Q[d/y].
+//@ contract (*NewForm).Transition
+//@   callsite[C04] C04.cutInternal process.TransitionInternally#1: arg0 == process
+//@ contract (*NewForm).Transition$1
+//@   callsite[C04] C04.cutSubst process.Form.Substitute#1: arg0 == f.continuation_e && arg1 == f.new_name_c && arg2 == newChannel && !arg2.IsSelf
+//@   callsite[C04] C04.cutChild process.NewProcess#1: arg0 == f.body && len(arg1) == 1 && arg1[0] == newChannel
+//@   callsite[C04] C04.cutSpawn (*process.Process).SpawnThenTransition#1: arg0 == newProcess && arg0 != process
+//@   callsite[C04] C04.cutStep (*process.Process).transitionLoop#1: arg0 == process && process.Body == f.continuation_e && process.Providers == old(process.Providers)
+
+// <a,b> <- split x; P (SPLIT): fresh d1, d2; body := P[d1/a][d2/b]; a forwarder providing [d1, d2] from x is spawned.
+//@ contract (*SplitForm).Transition
+//@   callsite[C04] C04.splitInternal process.TransitionInternally#1: !f.from_c.IsSelf && arg0 == process && len(newSplitNames) == 2
+//@ contract (*SplitForm).Transition$1
+//@   callsite[C04] C04.splitOne process.Form.Substitute#1: arg0 == f.continuation_e && arg1 == f.channel_one && arg2 == newSplitNames[0]
+//@   callsite[C04] C04.splitTwo process.Form.Substitute#2: arg0 == f.continuation_e && arg1 == f.channel_two && arg2 == newSplitNames[1]
+//@   callsite[C04] C04.splitFwd process.NewForward#1: arg0.IsSelf && arg1 == f.from_c
+//@   callsite[C04] C04.splitChild process.NewProcess#1: arg0 == newProcessBody && arg1 == newSplitNames
+//@   callsite[C04] C04.splitSpawn (*process.Process).SpawnThenTransition#1: arg0 == newProcess && arg0 != process
+//@   callsite[C04] C04.splitStep (*process.Process).transitionLoop#1: arg0 == process && process.Body == f.continuation_e && process.Providers == old(process.Providers)
+
+// The three ways a step is taken. A provider-side send: exactly one send of exactly the given message on the given
+// channel, then the continuation; a process with several providers duplicates first and sends nothing.
+//@ ghost lastSent Arr[Ref]Message
+//@ contract (*Process).transitionLoop
+//@   callsite[C04] C04.loopDispatch process.Form.Transition#1: arg0 == process.Body && arg1 == process && arg2 == re
+//@ contract TransitionBySending
+//@   callsite[C04] C04.sendDup (*process.Process).performDUPrule#1: arg0 == process && len(process.Providers) > 1 && sent[toChan] == old(sent[toChan])
+//@   callsite[C04] C04.sendThenContinue continuationFunc#1: len(process.Providers) <= 1 && sent[toChan] == old(sent[toChan]) + 1 && lastSent[toChan] == sendingMessage
+//@ contract TransitionByReceiving
+//@   callsite[C04] C04.recvDup (*process.Process).performDUPrule#1: arg0 == process && len(process.Providers) > 1
+//@   callsite[C04] C04.recvFwd process.handleNegativeForwardRequest#1: arg0 == process && len(process.Providers) <= 1 && arg1.Rule == FWD
+//@   callsite[C04] C04.recvGC process.handleNegativeDropRequest#1: arg0 == process && len(process.Providers) <= 1
+//@   callsite[C04] C04.recvThenContinue processMessageFunc#1: len(process.Providers) <= 1 && arg0.Rule != FWD && arg0.Rule != GC
+//@ contract TransitionInternally
+//@   callsite[C04] C04.internalDup (*process.Process).performDUPrule#1: arg0 == process && len(process.Providers) > 1
+//@   callsite[C04] C04.internalStep internalTransition#1: len(process.Providers) <= 1
+// a FWD request taken by a receiving process: it continues unchanged as the provider of the forwarder's channels
+//@ contract handleNegativeForwardRequest
+//@   callsite[C04] C04.fwdTakeOver (*process.Process).transitionLoop#1: arg0 == process && process.Providers == message.Providers && process.Body == old(process.Body)
+
+// fwd self x. Negative: x!{FWD, providers}, the forwarder ends. Positive: x?, then the forwarder becomes the form
+// that re-sends the message it got on its own providers.
+//@ macro relayed(b Form, to Name, m Message) bool =
+//@   (m.Rule == SND ==> is(b, SendForm) && SendForm(b).to_c == to && SendForm(b).payload_c == m.Channel1 && SendForm(b).continuation_c == m.Channel2) &&
+//@   (m.Rule == CLS ==> is(b, CloseForm) && CloseForm(b).from_c == to) &&
+//@   (m.Rule == SEL ==> is(b, SelectForm) && SelectForm(b).to_c == to && SelectForm(b).label == m.Label && SelectForm(b).continuation_c == m.Channel1) &&
+//@   (m.Rule == CST ==> is(b, CastForm) && CastForm(b).to_c == to && CastForm(b).continuation_c == m.Channel1) &&
+//@   (m.Rule == FWD ==> is(b, ForwardForm) && ForwardForm(b).to_c == to && len(m.Providers) >= 1 && ForwardForm(b).from_c == m.Providers[0] && !ForwardForm(b).to_drop)
+//@ contract (*ForwardForm).Transition
+//@   callsite[C04] C04.fwdRequest (*process.Process).terminateForward#1: arg0 == process && f.to_c.IsSelf && !f.to_drop && sent[f.from_c.Channel] == old(sent[f.from_c.Channel]) + 1 && lastSent[f.from_c.Channel].Rule == FWD && lastSent[f.from_c.Channel].Providers == process.Providers
+//@   callsite[C04] C04.fwdRelay (*process.Process).transitionLoop#1: arg0 == process && f.to_c.IsSelf && !f.to_drop && relayed(process.Body, f.to_c, message) && (message.Rule == SND || message.Rule == CLS || message.Rule == SEL || message.Rule == CST || message.Rule == FWD) && ite(message.Rule == FWD, process.Providers == message.Providers, process.Providers == old(process.Providers))
+//@   callsite[C04] C04.fwdDropRequest (*process.Process).terminateForward#2: arg0 == process && f.to_drop && sent[f.from_c.Channel] == old(sent[f.from_c.Channel]) + 1 && lastSent[f.from_c.Channel].Rule == GC
+
+// the copy is a new term: whatever is done to it leaves the original alone
+//@ contract CopyForm
+//@   ensures[C04] C04.copyFresh: result == nil || born(result) >= old(allocCounter())
+
+// f(ps) (CALL): body := a copy of the definition's body with the arguments for the parameters; the definition is left alone.
+//@ contract (*CallForm).Transition
+//@   callsite[C04] C04.callInternal process.TransitionInternally#1: arg0 == process
+//@ contract (*CallForm).Transition$1
+//@   callsite[C04] C04.callLookup process.GetFunctionByNameArity#1: arg1 == f.functionName && arg2 == len(f.parameters)
+//@   callsite[C04] C04.callCopies process.CopyForm#1: arg0 == functionCall.Body
+//@   callsite[C04] C04.callArgs1 process.Form.Substitute#1: arg0 == functionCallBody && arg1 == functionCall.Parameters[i] && arg2 == f.parameters[i]
+//@   callsite[C04] C04.callSelf process.Form.Substitute#2: arg0 == functionCallBody && arg1 == functionCall.ExplicitProvider && arg2 == f.parameters[0]
+//@   callsite[C04] C04.callArgs2 process.Form.Substitute#3: arg0 == functionCallBody && 1 <= i && arg1 == functionCall.Parameters[i - 1] && arg2 == f.parameters[i]
+//@   callsite[C04] C04.callArgs3 process.Form.Substitute#4: arg0 == functionCallBody && arg1 == functionCall.Parameters[i] && arg2 == f.parameters[i]
+//@   callsite[C04] C04.callArgs4 process.Form.Substitute#5: arg0 == functionCallBody && 1 <= i && arg1 == functionCall.Parameters[i - 1] && arg2 == f.parameters[i]
+//@   loop[C04] 2 invariant 1 <= i
+//@   loop[C04] 4 invariant 1 <= i
+//@   callsite[C04] C04.callStep (*process.Process).transitionLoop#1: arg0 == process && process.Body == functionCallBody && process.Providers == old(process.Providers)
+//@   callsite[C04] C04.callFresh (*process.Process).transitionLoop#1: functionCallBody == nil || born(functionCallBody) >= old(allocCounter())
+
+// DUP: a process with providers p1..pn becomes n processes, the i-th a copy of the body providing pi in which the
+// k-th free name is the fresh channel c[k][i]; per free name k a forwarder provides c[k][1..n] from it; the original ends.
+//@ contract (*Process).performDUPrule
+//@   callsite[C04] C04.dupCopies process.CopyForm#1: arg0 == process.Body
+//@   callsite[C04] C04.dupRenames process.Form.Substitute#1: arg0 == newDuplicatedProcessBody && arg1 == processFreeNames[k] && arg2 == freshChannels[k][i]
+//@   callsite[C04] C04.dupChild process.NewProcess#1: arg0 == newDuplicatedProcessBody && len(arg1) == 1 && arg1[0] == newProcessNames[i] && newProcessNames == old(process.Providers)
+//@   callsite[C04] C04.dupFresh process.NewProcess#1: arg0 == nil || born(arg0) >= old(allocCounter())
+//@   callsite[C04] C04.dupFwd process.NewForward#1: arg0.IsSelf && arg1 == processFreeNames[i]
+//@   callsite[C04] C04.dupFwdChild process.NewProcess#2: arg0 == newProcessBody && arg1 == freshChannels[i]
+//@   callsite[C04] C04.dupEnds (*process.Process).terminate#1: arg0 == process
